@@ -8,3 +8,6 @@ for p in "$@"; do
   echo "$out" | grep -A1 "^VIOLATION" | grep signature | sort | uniq -c | sort -rn | head -8
   if [ $rc -eq 3 ]; then echo "$out" | tail -5; fi
 done
+# cleanup the per-checkout build/scratch/evidence copies (keyed by sha1 of the path)
+h=$(python3 -c "import hashlib,sys,os;print(hashlib.sha1(os.path.realpath(sys.argv[1]).encode()).hexdigest()[:8])" $wt)
+rm -rf /verif/.build/*-$h
